@@ -997,6 +997,55 @@ def edit(rng, p):
     return None
 
 
+# ---- near-duplicates: members of a collection that a text-level shortcut (a cache keyed by a
+#      "cleaned-up" pattern text, a comparison of the texts, ...) would confuse
+WS_BASES = ["annual report.doc", "a b", "Program Files", "x y z", "New  Folder"]
+
+
+def near_duplicates(rng, p):
+    """-> [(ast, name)]: p with ONE constant respelled / slightly changed: string constants that differ only in
+    white space inside the quotes, in case, in an escaped character; numbers spelled 1 / 1.0 / +1; sets reordered"""
+    atoms = [(path, e) for path, e in positions(p) if e[0] == "atom" and ("k", "hashes") not in e[2]]
+    if not atoms:
+        return []
+    strs = [x for x in atoms if x[1][5][0] == "str" and x[1][3] in ("=", "!=", "LIKE", "MATCHES", "<", ">")]
+    path, e = rng.choice(strs) if strs and rng.random() < 0.75 else rng.choice(atoms)
+    _, typ, steps, op, neg, k = e
+    alts = []
+    if k[0] == "str":
+        s0 = rng.choice(WS_BASES)
+        a, _, b = s0.partition(" ")
+        b = b.lstrip(" ")
+        alts = [(("str", a + " " + b), "one-blank"), (("str", a + "  " + b), "two-blanks"), (("str", a + "\t" + b), "tab"),
+                (("str", a + " " + b + " "), "trailing-blank"), (("str", " " + a + " " + b), "leading-blank"),
+                (("str", a + "\u00a0" + b), "nbsp"), (("str", (a + " " + b).swapcase()), "case"),
+                (("str", a + " \t" + b), "blank-tab"), (("str", a + "\\ " + b), "backslash-blank"),
+                (("str", a + "' " + b), "quote-blank")]
+    elif k[0] in ("int", "float"):
+        n = k[1] if k[0] == "int" else int(decimal.Decimal(k[1]).to_integral_value())
+        if abs(n) >= 10 ** 14:
+            n = 7
+        alts = [(("int", n, False), "int"), (("float", "%d.0" % n), "float"), (("int", n, True), "plus-sign"),
+                (("float", "%d.00" % n), "float-zeros"), (("int", n + 1, False), "other-int"), (("float", "%d.5" % n), "other-float"),
+                (("int", n * 10, False), "times-ten")]
+    elif k[0] == "list" and len(k[1]) >= 2:
+        m = list(k[1])
+        alts = [(("list", m), "set"), (("list", m[::-1]), "set-reversed"), (("list", m[1:] + m[:1]), "set-rotated"),
+                (("list", m[1:]), "set-smaller"), (("list", m + m[:1]), "set-repeat")]
+    else:
+        alts = [(k, "as-is"), (respell_prim(rng, k), "respelled"), (respell_prim(rng, respell_prim(rng, k)), "respelled-twice")]
+        if k[0] == "hex":
+            alts += [(("hex", k[1].upper()), "upper"), (("hex", k[1].lower()), "lower"), (("hex", k[1] + "00"), "longer")]
+        if k[0] == "bin":
+            alts += [(("bin", "QUJD"), "QUJD"), (("bin", "qujd"), "qujd")]
+    out = []
+    for k2, name in alts:
+        if op in ("IN",) and k2[0] != "list":
+            continue
+        out.append((replace_at(p, path, ("atom", typ, steps, op, neg, k2)), name))
+    return out
+
+
 def flat_node(op, kids):
     out = []
     for k in kids:
